@@ -216,4 +216,57 @@ PROPS = {
             "random mode avoids frequency index 15 (known finding K3); every 7th esds case probes it and attributes only chan_conf mismatches to K3",
         ],
     },
+
+    "C06": {
+        "level": "exploration",
+        "profiles": ["chk", "rel"],
+        "death_is_violation": True,
+        "min_evals": {"quick": 20000, "thorough": 300000},
+        "rule": ("seed corpus of ~50 valid files (the canned samples, reference-encoded movies of every codec/layout with metadata, edit lists, emsg, "
+                 "fragmented streams and init+segment pairs, muxer outputs); mutators: single substitution of a boundary-value set (0,1,...,2^W-1, n, "
+                 "remaining, box size, +-1/8/16, count that just fits) into every field of the reference encoder's field map (sizes, largesizes, fourccs, "
+                 "versions, flags, counts, lengths, offsets, values; all of them in thorough, a 700-per-seed sample in quick), pairwise substitution of "
+                 "near-by fields, byte-level havoc (flips, runs, deletes, duplicates, splices of two seeds, truncation, fourcc swaps) and 14 amplifier "
+                 "families. Every input is opened (read_header, and read_fragment_header against three opened initialisation segments) and, when it "
+                 "opens, every accessor is called: movie and track accessors, metadata, to_json/summary/box_size of every parsed box, sample_count, "
+                 "sample_offset and read_sample for ids 0..16, count-1..count+2, 2^31, 2^32-1 and track ids 0 / present / max+1. A panic hook records "
+                 "sites; process deaths are attributed through the journal. Both build profiles. distinct_nontrivial = distinct (field path class, field "
+                 "kind, value class) triples substituted plus amplifier (family, size step) pairs."),
+        "assumptions": [
+            "inputs are handed to the reader with their true length",
+            "stack overflow / allocation aborts are observed as worker death and attributed to the journalled open case",
+        ],
+    },
+    "C07": {
+        "level": "exploration",
+        "profiles": ["chk"],
+        "death_is_violation": True,
+        "min_evals": {"quick": 20000, "thorough": 300000},
+        "rule": ("the C06 corpus and mutators under an instrumented stream: per call (open, open-as-fragment, each sample read / accessor group) at "
+                 "most 4000 + 16 n stream operations and 1 MiB + 16 n transferred bytes (n = input length; the stream returns an error when exceeded, "
+                 "so a reader that loops without consuming input terminates with evidence) and at most 50 ms + 2 us x n thread CPU time, counted only "
+                 "if the minimum over three runs exceeds it; 14 amplifier families (zero-size child in moov/trak/stbl/udta/moof, sub-header-size boxes "
+                 "at top level and inside moov, many traks whose parameter-set lengths reach the end of the file, counts of 2^32-1 without payload, "
+                 "runs declaring 2^32-1 samples without fields, nested overrun chains, many rewinding meta boxes, many emsg) are emitted at sizes "
+                 "n, 2n, 4n, 8n and operations / bytes / CPU must not grow faster than 1.6 x the size ratio (doubling test). distinct_nontrivial as C06."),
+        "assumptions": [
+            "liveness is restated as bounded progress in logical steps (stream operations, bytes, CPU time) - DESIGN 1 and 5 (C07)",
+            "budget constants are at least 3x the worst ratio of any well-formed or honestly malformed input (observed maxima are printed in the evidence)",
+            "a pure CPU loop that performs no stream operation is cut by the worker's RLIMIT_CPU watchdog and attributed through the journal",
+        ],
+    },
+    "C08": {
+        "level": "exploration",
+        "profiles": ["rel"],
+        "death_is_violation": True,
+        "min_evals": {"quick": 20000, "thorough": 300000},
+        "rule": ("the C06 corpus and mutators under a counting global allocator: per call (open, open-as-fragment, every sample read and accessor group) "
+                 "the peak of live heap bytes above the level at call entry must stay <= 64 KiB + 64 n and the largest single request <= 64 KiB + 16 n "
+                 "(n = input length); requests above 1 GiB are recorded and refused, the resulting abort is attributed to the journalled case. "
+                 "distinct_nontrivial as C06; observed maxima of peak/n and request/n are reported."),
+        "assumptions": [
+            "the bound constants leave room for track cloning and Vec growth (observed maxima on valid files are < 8 n)",
+            "measured in the release profile (allocation behaviour does not depend on overflow checks)",
+        ],
+    },
 }
